@@ -170,6 +170,12 @@ def check_algorithms(rec: Rec, seed):
         pos = o.positions(cc)
         accepts = [getattr(c, "value", c) for c in getattr(algo, "accepts", [])]
         inp = {"algorithm": key, "accepts": accepts, "positions": pos}
+        miss = onat.missing_fields(cc, pos)
+        if miss:
+            # the published algorithm reads a field this country's entry does not define: the check would read '' there
+            rec.fail(f"algorithm_reads_undefined_field|{cc}|{','.join(miss)}", "algorithm_reads_defined_fields", inp,
+                     "fields defined: " + ",".join(onat.NEEDS[cc]), {"undefined": miss})
+            continue
         undefined = [c for c in accepts if c not in pos]
         if undefined:
             rec.excluded[f"algorithm lists a component the country lacks and reads '' ({cc}: {','.join(undefined)})"] += 1
